@@ -48,13 +48,13 @@ STACKS = [[0, 90, 90, 0], [0, 90, -45, 45], [45, -45, 0, 90, 30], [0], [30, -30,
 
 PANEL_OPS = ['k0', 'k0', 'kG0', 'kM', 'kA', 'cA', 'kT', 'fint', 'fext', 'lb', 'lb_dense', 'freq', 'freq_dense', 'static',
              'static_nl', 'uvw', 'strain', 'stress', 'plot', 'save_load', 'get_size', 'set_cores', 'k0_c', 'kG0_c',
-             'mod_lb', 'mod_freq', 'mod_static', 'lb_c', 'k0_F', 'kT_F', 'fint_F', 'lb_cF', 'redef']
-ASM_OPS = ['k0', 'k0', 'kG0', 'kG0', 'kM', 'kM', 'kT', 'kT', 'fint', 'fext', 'fext', 'uvw', 'strain', 'stress', 'k0_conn', 'uvw', 'strain', 'stress', 'set_cores', 'get_size',
-           'mod_lb', 'mod_freq', 'mod_static', 'panel_k0', 'plot', 'an_static', 'an_static_nl', 'panel_kM', 'panel_fext']
-BAY_OPS = ['k0', 'k0', 'kG0', 'kM', 'kA', 'cA', 'fext', 'uvw_skin', 'uvw_stiffener', 'get_size', 'set_cores',
-           'mod_lb', 'mod_freq', 'mod_static', 'plot_skin', 'save_load', 'stiff_k0', 'plot_stiffener']
+             'mod_lb', 'mod_freq', 'mod_static', 'lb_c', 'k0_F', 'kT_F', 'fint_F', 'lb_cF', 'redef', 'twin']
+ASM_OPS = ['redef', 'k0', 'k0', 'kG0', 'kG0', 'kM', 'kM', 'kT', 'kT', 'fint', 'fext', 'fext', 'uvw', 'strain', 'stress', 'k0_conn', 'uvw', 'strain', 'stress', 'set_cores', 'get_size',
+           'mod_lb', 'mod_freq', 'mod_static', 'panel_k0', 'plot', 'an_static', 'an_static_nl', 'panel_kM', 'panel_fext', 'twin']
+BAY_OPS = ['redef', 'k0', 'k0', 'kG0', 'kM', 'kA', 'cA', 'fext', 'uvw_skin', 'uvw_stiffener', 'get_size', 'set_cores',
+           'mod_lb', 'mod_freq', 'mod_static', 'plot_skin', 'save_load', 'stiff_k0', 'plot_stiffener', 'twin']
 SHELL_OPS = ['k0', 'k0', 'fext', 'kT', 'fint', 'lb', 'static', 'static_nl', 'uvw', 'strain', 'stress', 'get_size',
-             'set_cores', 'set_ni_cores', 'save_load', 'plot', 'eigen']
+             'set_cores', 'set_ni_cores', 'save_load', 'plot', 'eigen', 'twin']
 
 
 SOLVER_OPS = ('lb', 'lb_dense', 'lb_c', 'lb_cF', 'freq', 'freq_dense', 'static', 'static_nl', 'mod_lb', 'mod_freq', 'mod_static', 'eigen',
@@ -87,7 +87,8 @@ def gen_panel_def(rng, allow_none_model=True, mmax=5):
 
 
 def gen_pools(rng):
-    return {'cs': [{'seed': rng.getrandbits(32), 'scale': 10 ** rng.uniform(-4, -2)} for _ in range(2)],
+    return {'cs': [{'seed': rng.getrandbits(32), 'scale': 10 ** rng.uniform(-4, -2),
+                    'layout': rng.choice(['C', 'C', 'C', 'strided'])} for _ in range(2)],
             'pts': [{'seed': rng.getrandbits(32), 'n': rng.choice([1, 3, 7, 10]), 'grid': rng.random() < 0.4,
                      'gridx': rng.randint(2, 5), 'gridy': rng.randint(2, 5)} for _ in range(2)],
             'incs': [1.0, rng.uniform(0.1, 0.9)],
@@ -108,7 +109,9 @@ def gen_ops(rng, menu, nmin=5, nmax=30, heavy=()):
               'nl': rng.random() < 0.5, 'k': rng.choice([1, 2, 3, 5, 8, 16]),
               'vec': rng.choice(['w', 'u', 'exx', 'Nxx', 'kxy']), 'atype': rng.choice([4, 4, 3]),
               'si': rng.randrange(3), 'region': rng.choice(['flange', 'base']), 'pidx': rng.randrange(4),
-              'attr': rng.choice(['Nxx', 'Nyy', 'Nxy', 'mu', 'a', 'b', 'offset', 'flag', 'plyt', 'Nxx_cte']), 'val': rng.uniform(0.3, 2.5)}
+              'attr': rng.choice(['Nxx', 'Nyy', 'Nxy', 'mu', 'a', 'b', 'offset', 'flag', 'plyt', 'Nxx_cte']), 'val': rng.uniform(0.3, 2.5),
+              # shells: full-size (prescribed amplitudes included) or reduced amplitude vector, with or without a load factor
+              'full': rng.random() < 0.4, 'winc': rng.random() < 0.5}
         if name not in ('set_cores', 'set_ni_cores', 'save_load', 'get_size') and rng.random() < 0.07:
             # transient allocation failure: the j-th call of an internal building block (laminate construction,
             # connection constants/kernels, matrix symmetrisation, linear-matrix set-up) raises MemoryError
@@ -151,7 +154,10 @@ def generate(seed, batch):
         for i in range(npan - 1):
             func = rng.choice(['SSycte', 'SSxcte', 'BFycte', 'SB'])
             conns.append({'p1': i, 'p2': i + 1, 'func': func})
-        scen['defn'] = {'panels': panels, 'conn': conns}
+        gnames = rng.choice([['g1', 'g2'], ['g1', 'g2'], ['skin', 'skin_aft'], ['b10', 'b1'], ['a', 'ab']])
+        for d in panels:
+            d['group'] = gnames[0 if d['group'] == 'g1' else 1]
+        scen['defn'] = {'panels': panels, 'conn': conns, 'gnames': gnames}
         scen['ops'] = gen_ops(rng, ASM_OPS, nmax=20, heavy=('plot',))
     elif batch == 'B':
         scen['kind'] = 'bay'
@@ -182,7 +188,12 @@ def generate(seed, batch):
                         'bc': rng.choice([None, None, 'ss1', 'cc2', 'ss3-cc4']),
                         'PL': rng.choice([0.0, 5.0, 50.0]), 'PL_inc': rng.random() < 0.5,
                         'P': rng.choice([0.0, 0.0, 0.01]), 'num_eigvalues': rng.randint(1, 3),
-                        'c0': rng.random() < 0.15}
+                        'c0': rng.random() < 0.15,
+                        # non-zero prescribed amplitudes (top-edge rotation, load asymmetry)
+                        'thetaTdeg': rng.choice([0.0, 0.0, rng.uniform(0.05, 0.5)]),
+                        'betadeg': rng.choice([0.0, 0.0, rng.uniform(0.1, 2.0)])}
+        # axial load given as a caller-supplied distribution table instead of the total force
+        scen['defn']['Nxxtop'] = rng.uniform(5.0, 80.0) if (scen['defn']['Fc'] is None and rng.random() < 0.5) else None
         if scen['defn']['method'] == 'simps2d':
             scen['defn']['nx'] |= 1
             scen['defn']['nt'] |= 1
@@ -325,12 +336,56 @@ def apply_redefinition(p, d, op):
     return d
 
 
+TWIN_VARIANTS = ('ortho', 'plyt', 'offset', 'same')
+
+
+def run_twin(kind, d, op):
+    """Another object in the same process: same kind, a variant of the definition (forced-orthotropic laminate, other
+    ply thickness, other offset, or identical), asked for a few quantities and thrown away.  Nothing the subject
+    returns afterwards may depend on it."""
+    import copy
+    var = TWIN_VARIANTS[op['pidx'] % len(TWIN_VARIANTS)]
+    t = copy.deepcopy(d)
+
+    def vary(pd):
+        if var == 'plyt':
+            pd['plyt'] = pd['plyt'] * 2.0
+        elif var == 'offset' and 'offset' in pd:
+            pd['offset'] = pd['offset'] + 1e-4
+
+    if kind == 'panel':
+        vary(t)
+    elif kind == 'assembly':
+        for pd in t['panels']:
+            vary(pd)
+    elif kind == 'bay':
+        vary(t)
+    twin = build(kind, t)
+    if kind == 'shell' and var == 'plyt' and not d['model'].startswith('iso_'):
+        twin.plyt = 0.25
+    if var == 'ortho':
+        members = [twin] if kind in ('panel', 'shell') else list(twin.panels)
+        for m_ in members:
+            m_.force_orthotropic_laminate = True
+    try:
+        twin.calc_k0(silent=True)
+        if kind == 'panel':
+            import numpy as np
+            twin.stress(np.ones(panel_size(t)) * 1e-3, gridx=2, gridy=2)
+        elif kind == 'shell':
+            twin.calc_fext(silent=True)
+    except Exception:
+        pass
+    return var
+
+
 def panel_size(d):
     num = 1 if (d['model'] and d['model'].endswith('_w')) else 3
     return num * d['m'] * d['n']
 
 
-def build(kind, d):
+def build(kind, d, inputs=None):
+    """inputs: list that receives (array, sha, what) for arrays the caller hands to the object at definition time"""
     if kind == 'panel':
         from compmech.panel import Panel
         return apply_panel_def(Panel(), d)
@@ -379,6 +434,9 @@ def build(kind, d):
             kw = {}
             if d['Nxx'] is not None:
                 kw['Nxx'] = d['Nxx']
+            for a_ in ('Nxx', 'Nyy', 'mu'):
+                if d.get('panel_' + a_) is not None:
+                    kw[a_] = d['panel_' + a_]
             bay.add_panel(y1=edges[i], y2=edges[i + 1], plyt=bay.plyt, **kw)
         for sd, ys in zip(d['stiffeners'], cuts):
             kw = dict(ys=ys, bb=sd['bb'], bf=sd['bf'], bstack=[0, 90, 90, 0], bplyt=bay.plyt, blaminaprop=LAMPROP,
@@ -413,9 +471,19 @@ def build(kind, d):
             cc.plyt = 0.125
         cc.r2, cc.H = d['r2'], d['H']
         cc.Fc = d['Fc']
+        if d.get('Nxxtop') is not None:
+            tab = np.zeros(2 * d['n2'] + 1)
+            tab[0] = d['Nxxtop']
+            cc.Nxxtop = tab
+            if inputs is not None:
+                inputs.append((tab, sha_bytes(tab.tobytes()), 'Nxxtop table'))
         cc.bc = d['bc']
         cc.P = d['P']
         cc.num_eigvalues = d['num_eigvalues']
+        if d.get('thetaTdeg'):
+            cc.thetaTdeg = d['thetaTdeg']
+        if d.get('betadeg'):
+            cc.betadeg = d['betadeg']
         if d['PL']:
             # equivalent of add_SPL without touching derived state
             lst = cc.forces_inc if d['PL_inc'] else cc.forces
@@ -530,6 +598,11 @@ class Env(object):
             rng = np.random.Generator(np.random.PCG64([spec['seed'], size]))
             self._cs[key] = np.ascontiguousarray(rng.standard_normal(size) * spec['scale'])
         arr = self._cs[key].copy()
+        if self.scen['pools']['cs'][i].get('layout') == 'strided':
+            # every other element of a larger buffer: a legal 1-D array that is not contiguous
+            base = np.zeros(2 * size)
+            base[::2] = arr
+            arr = base[::2]
         self.track(arr, 'amplitude vector')
         return arr
 
@@ -654,10 +727,10 @@ def run_panel_op(p, op, env, d):
         return (p.eigvals, p.eigvecs)
     if name == 'static':
         cs = p.static(silent=True)
-        return (list(p.analysis.increments), cs)
+        return (p.analysis.increments, cs)
     if name == 'static_nl':
         cs = p.static(NLgeom=True, silent=True)
-        return (list(p.analysis.increments), cs)
+        return (p.analysis.increments, cs)
     if name in ('uvw', 'strain', 'stress'):
         xs, ys, kw = env.pts(op['pi'], d['a'], d['b'])
         c = env.c(op['ci'], size)
@@ -702,7 +775,7 @@ def run_asm_op(asm, op, env, d):
     name = op['op']
     size = asm_size(d)
     pools = env.scen['pools']
-    group = 'g1' if op['pi'] == 0 else 'g2'
+    group = d.get('gnames', ['g1', 'g2'])[0 if op['pi'] == 0 else 1]
     if name == 'k0':
         return asm.calc_k0(silent=True)
     if name == 'kG0':
@@ -846,10 +919,13 @@ def run_shell_op(cc, op, env, d):
         return cc.calc_k0(silent=True)
     if name == 'fext':
         return cc.calc_fext(inc=pools['incs'][op['ii']], silent=True)
+    # amplitude vector of this operation: reduced (prescribed amplitudes left out) or full size, optionally with a load factor
+    csize = size if op.get('full') else nu
+    kwinc = {'inc': pools['incs'][op['ii']]} if op.get('winc') else {}
     if name == 'kT':
-        return cc.calc_kT(env.c(op['ci'], nu), silent=True)
+        return cc.calc_kT(env.c(op['ci'], csize), silent=True, **kwinc)
     if name == 'fint':
-        return cc.calc_fint(env.c(op['ci'], nu), silent=True)
+        return cc.calc_fint(env.c(op['ci'], csize), silent=True, **kwinc)
     if name == 'lb':
         cc.lb()
         return (cc.eigvals, cc.eigvecs)
@@ -858,10 +934,10 @@ def run_shell_op(cc, op, env, d):
         return (cc.eigvals, cc.eigvecs)
     if name == 'static':
         cs = cc.static(silent=True)
-        return (list(cc.increments), cs)
+        return (cc.increments, cs)
     if name == 'static_nl':
         cs = cc.static(NLgeom=True, silent=True)
-        return (list(cc.increments), cs)
+        return (cc.increments, cs)
     if name in ('uvw', 'strain', 'stress'):
         spec = pools['pts'][op['pi']]
         rng = np.random.Generator(np.random.PCG64([spec['seed'], 5]))
@@ -870,8 +946,8 @@ def run_shell_op(cc, op, env, d):
         ts = np.ascontiguousarray(rng.uniform(-np.pi, np.pi, spec['n']))
         env.track(xs, 'xs')
         env.track(ts, 'ts')
-        c = env.c(op['ci'], nu)
-        return getattr(cc, name)(c, xs=xs, ts=ts)
+        c = env.c(op['ci'], csize)
+        return getattr(cc, name)(c, xs=xs, ts=ts, **kwinc)
     if name == 'plot':
         import matplotlib.pyplot as plt
         cc.plot(env.c(op['ci'], nu), vec='w', gridx=5, gridt=7, filename='cc.png', dpi=30, plot_type=4 if not d['alphadeg'] else 1)
@@ -916,10 +992,16 @@ def op_key(kind, op):
         parts.append(str(op['k']))
     if name == 'redef':
         parts.append(op['attr'])
+    if name == 'twin':
+        parts.append(TWIN_VARIANTS[op['pidx'] % len(TWIN_VARIANTS)])
+    if kind == 'shell' and name in ('kT', 'fint', 'uvw', 'strain', 'stress'):
+        parts.append('f%d' % int(bool(op.get('full'))))
+        if op.get('winc'):
+            parts.append('i%d' % op['ii'])
     return '/'.join(parts)
 
 
-NO_COMPARE = ('set_cores', 'set_ni_cores', 'save_load', 'redef')
+NO_COMPARE = ('set_cores', 'set_ni_cores', 'save_load', 'redef', 'twin')
 THREAD_SENSITIVE_SHELL = ('kT', 'fint', 'static_nl')
 
 
@@ -1047,6 +1129,7 @@ def outcome_of(kind, obj, op, env, d, seam, key, fault=None):
         return ('raises', type(e).__name__, repr(e)[:160])
     finally:
         seam.fault = None      # faults are armed for the duration of the operation only
+    seam.last_raw = val
     return ('value', canon(val), None)
 
 
@@ -1171,15 +1254,35 @@ def execute(scen):
     sigs = set()
     prev_ops = []
     try:
-        subject = build(kind, d)
-        env_s = Env(scen, None)
+        def_inputs = []
+        # references first, while the process has seen nothing of this scenario: the same operation alone on a fresh
+        # object, one thread (up to the first re-definition; after one they are rebuilt from the new definition)
         refs = {}
+        for op in scen['ops']:
+            if op['op'] == 'redef':
+                break
+            if op['op'] in NO_COMPARE:
+                continue
+            key = op_key(kind, op)
+            if key not in refs:
+                refs[key] = outcome_of(kind, build(kind, d), op, Env(scen, None), d, seam, key)
+                if refs[key][0] == 'raises':
+                    bump(res['exceptions'], 'fresh_%s_%s' % (op['op'], refs[key][1]))
+        subject = build(kind, d, def_inputs)
+        env_s = Env(scen, None)
         seen = {}
+        held = []
         ni_changed = False
         for idx, op in enumerate(scen['ops']):
             key = op_key(kind, op)
             name = op['op']
             res['steps'] += 1
+            if name == 'twin':
+                var = run_twin(kind, d, op)
+                bump(res['probes'], 'twin_%s_%s' % (kind, var))
+                log.add(idx, key, 'twin')
+                prev_ops.append(name)
+                continue
             if name == 'save_load':
                 if kind in ('panel', 'shell', 'bay'):
                     try:
@@ -1193,18 +1296,49 @@ def execute(scen):
             if name == 'redef':
                 # the client re-defines one attribute of a Panel (a class that advertises no caches): from here on the
                 # reference is a fresh object built from the NEW definition
+                import copy as _copy
                 if kind == 'panel':
-                    import copy as _copy
                     d = _copy.deepcopy(d)
                     apply_redefinition(subject, d, op)
                     refs = {}
                     seen = {}
+                    held = []
                     bump(res['probes'], 'redefinition_' + op['attr'])
+                elif kind in ('assembly', 'bay') and op['attr'] in ('Nxx', 'Nyy', 'mu'):
+                    # loads and density of the member panels are read at call time (no cache may depend on them)
+                    d = _copy.deepcopy(d)
+                    val = (-op['val'] * 10.0) if op['attr'] != 'mu' else 1.3e3 * op['val']
+                    if kind == 'assembly':
+                        for pd, pobj in zip(d['panels'], subject.panels):
+                            pd[op['attr']] = val
+                            setattr(pobj, op['attr'], val)
+                    else:
+                        if op['attr'] == 'mu':
+                            d['panel_mu'] = val
+                        else:
+                            d['panel_' + op['attr']] = val
+                        for pobj in subject.panels:
+                            setattr(pobj, op['attr'], val)
+                    refs = {}
+                    seen = {}
+                    held = []
+                    bump(res['probes'], 'redefinition_%s_%s' % (kind, op['attr']))
                 log.add(idx, key, 'redef')
                 prev_ops.append(name)
                 continue
+            seam.last_raw = None
             out = outcome_of(kind, subject, op, env_s, d, seam, key, fault=op.get('fault'))
+            raw_s = seam.last_raw
+            for hkey, hidx, hval, hdig in held:
+                # what an earlier call handed out (arrays are kept by reference, not copied) must still be what it was
+                if digest_of(canon(hval)) != hdig:
+                    raise Violation('H7-returned-result-altered', {'kind': kind, 'op': key, 'index': idx, 'earlier_op': hkey,
+                                                                   'earlier_index': hidx, 'history': prev_ops[-6:],
+                                                                   'why': 'a result returned by an earlier call was modified by this call'}, step=idx)
             what = env_s.check_inputs()
+            for arr_, sha_, what_ in def_inputs:
+                if sha_bytes(arr_.tobytes()) != sha_:
+                    what = what or what_
             if what:
                 raise Violation('H3-inputs', {'op': key, 'index': idx, 'why': 'caller-supplied %s was modified' % what,
                                               'history': prev_ops[-6:]}, step=idx)
@@ -1263,6 +1397,10 @@ def execute(scen):
                         raise Violation('H2-repeat', dict(ctx, where=str(w2)[:300], why='same operation twice gives different values'), step=idx)
                     bump(res['probes'], 'H2_repeat_checked')
                 seen[key] = out[1]
+                # the objects themselves (lists, arrays, sparse matrices) are kept, exactly as a caller would keep them
+                held.append((key, idx, raw_s, digest_of(out[1])))
+                if len(held) > 8:
+                    held.pop(0)
                 bump(res['probes'], 'H1_checked')
             else:
                 bump(res['probes'], 'consistent_raise')
@@ -1297,6 +1435,6 @@ def known_id_for(kind, key, out, ref, prev_ops, d):
     prev_ops = [o.rstrip('!') for o in prev_ops]
     if kind == 'bay' and out[0] == 'raises' and out[1] == 'AssertionError' and (name == 'stiff_k0' or 'stiff_k0' in prev_ops):
         return 'C20-stiffener-direct-call'
-    if kind == 'shell' and d.get('Fc') is None and (name in ('lb', 'eigen') or 'lb' in prev_ops or 'eigen' in prev_ops):
+    if kind == 'shell' and d.get('Fc') is None and d.get('Nxxtop') is None and (name in ('lb', 'eigen') or 'lb' in prev_ops or 'eigen' in prev_ops):
         return 'C20-conecyl-lb-default-load'
     return None
